@@ -15,7 +15,8 @@ from pyins.util import TRAJECTORY_COLS, THETA_COLS, DV_COLS
 
 from . import world as W
 from .fworld import rng_of, _f
-from .monitors import KernelShim, KernelBoundsViolation, InitialSize, digest, bits
+from .monitors import (KernelShim, KernelBoundsViolation, InitialSize, digest, bits,
+                       integrator_capacity)
 
 CHUNKS = [0, 1, 2, 3, 5, 8, 13, -1]
 SIZES = [1, 2, 3, 4, 5, 7, 8, 16, 10000]
@@ -275,7 +276,7 @@ def execute(sc, want='C02'):
         for op in sc['ops']:
             stats['ops'] += 1
             name = op[0]
-            cap_before = len(it.lla)
+            cap_before = integrator_capacity(it)
             grow_before = shim.grow_events
             held = len(rows)
             try:
